@@ -526,14 +526,26 @@ struct Value {
         data_value();
         std::vector<unsigned char> tmp = {1 /* temporary; this should be configurable (wit ver) */};
         ConvertBits<8, 5, true>([&](unsigned char c) { tmp.push_back(c); }, data.begin(), data.end());
-        str = bech32::Encode(bech32::Encoding::BECH32, bech32_hrp, tmp);
+        std::string enc = bech32::Encode(bech32::Encoding::BECH32, bech32_hrp, tmp);
+        if (enc.size() > 90) {
+            // BIP173: no bech32 string is longer than 90 characters (bech32-decode refuses such a string)
+            fprintf(stderr, "value too long to bech32-encode (%zu bytes give a string of %zu characters, the limit is 90)\n", data.size(), enc.size());
+            return;
+        }
+        str = enc;
         type = T_STRING;
     }
     void do_bech32menc() {
         data_value();
         std::vector<unsigned char> tmp = {1 /* temporary; this should be configurable (wit ver) */};
         ConvertBits<8, 5, true>([&](unsigned char c) { tmp.push_back(c); }, data.begin(), data.end());
-        str = bech32::Encode(bech32::Encoding::BECH32M, bech32_hrp, tmp);
+        std::string enc = bech32::Encode(bech32::Encoding::BECH32M, bech32_hrp, tmp);
+        if (enc.size() > 90) {
+            // BIP173: no bech32 string is longer than 90 characters (bech32-decode refuses such a string)
+            fprintf(stderr, "value too long to bech32m-encode (%zu bytes give a string of %zu characters, the limit is 90)\n", data.size(), enc.size());
+            return;
+        }
+        str = enc;
         type = T_STRING;
     }
     void do_bech32dec() {
